@@ -128,8 +128,8 @@ def run(ctx):
         mc = ctx.model_check(MOD, cfg, sub="mc_" + cfg[len(MOD) + 1:-4], expect_violations=exp, workers=4, timeout=600)
         witness[cfg] = dict(states=mc["states"], violated=mc["violated"])
     # (M)+(G): the code as written, scenario emission (the invariants D4 breaks are not listed in the fault configurations)
-    cfgs = [("f", "MCPkgRevision_quick_fault.cfg", 2600), ("g", "MCPkgRevision_quick_gate.cfg", 2400)] if quick else \
-           [("f", "MCPkgRevision_thorough_fault.cfg", 60000), ("g", "MCPkgRevision_quick_gate.cfg", 30000),
+    cfgs = [("f", "MCPkgRevision_quick.cfg", 2600), ("g", "MCPkgRevision_quick_gate.cfg", 2400)] if quick else \
+           [("f", "MCPkgRevision_thorough.cfg", 60000), ("g", "MCPkgRevision_quick_gate.cfg", 30000),
             ("l", "MCPkgRevision_thorough_late.cfg", 12000)]
     scs, states, trans, emitted, distinct = [], 0, 0, 0, 0
     consts = {}
@@ -170,6 +170,12 @@ def run(ctx):
              "sweep = the first reconcile fails at byte b of the image stream / of the cache file (error, error + failing delete, "
              "crash), two healthy reconciles follow; concurrent = a second reconcile of the revision starts mid-stream",
     ))
+    by_formula = {}
+    for v in ctx.violations:
+        by_formula[v["formula"]] = by_formula.get(v["formula"], 0) + 1
+    ctx.cov["violations_by_formula"] = by_formula
+    if by_formula:
+        vlib.log("  violations by formula: %s" % json.dumps(by_formula, sort_keys=True))
     stuck = total["hits"].get("observation_healthy_reconcile_blocked_by_corrupt_entry", 0)
     ctx.cov["observations"] = dict(
         healthy_reconcile_blocked_by_corrupt_entry=stuck,
